@@ -57,6 +57,63 @@ def defined_later_input(rng):
     return t
 
 
+def transport_input(rng):
+    """a column defined once, then several TRANSPORT / ADVECTION simulations; the later ones omit parameters (cells, punch/print cells and
+    frequencies, lengths, dispersivities, boundary conditions ...) that the engine retains from the earlier ones, and change inflow / shifts"""
+    n = rng.randint(2, 6)
+    so = rng.choice([1, 1, 2, 7])
+    t = "SOLUTION 0\n pH 7\n Na %g\n Cl %g\n K %g\nSOLUTION 1-%d\n pH 6.5\n Na 1\n Cl 1\n Ca 0.2\n" % (rng.uniform(1, 20), rng.uniform(1, 20), rng.uniform(0.1, 2), n)
+    if rng.random() < 0.4:
+        t += "EXCHANGE 1-%d\n X 0.002\n -equilibrate 1\n" % n
+    if rng.random() < 0.3:
+        t += "EQUILIBRIUM_PHASES 1-%d\n Calcite 0 0.001\n" % n
+    t += "SELECTED_OUTPUT %d\n -reset false\n -high_precision true\n -step true\n -distance true\n -time true\n -solution true\n -totals Na Cl K Ca\n" % so
+    if rng.random() < 0.5:
+        t += "USER_PUNCH %d\n -headings cell stepno mu\n 10 PUNCH CELL_NO, STEP_NO, MU\n" % so
+    t += "END\n"
+    first = {"ADVECTION": True, "TRANSPORT": True}
+    for k in range(rng.randint(2, 4)):
+        kind = rng.choice(["TRANSPORT", "TRANSPORT", "ADVECTION"])
+        L = [kind]
+        full = first[kind] or rng.random() < 0.25
+        if full:
+            L.append(" -cells %d" % n)
+        L.append(" -shifts %d" % rng.randint(1, 4))
+        if kind == "TRANSPORT":
+            if full or rng.random() < 0.2:
+                L.append(" -time_step %d" % rng.choice([100, 3600]))
+            if full and rng.random() < 0.7 or rng.random() < 0.15:
+                L.append(" -flow_direction %s" % rng.choice(["forward", "back", "diffusion_only"]))
+            if full and rng.random() < 0.6 or rng.random() < 0.15:
+                L.append(" -boundary_conditions %s %s" % (rng.choice(["flux", "constant", "closed"]), rng.choice(["flux", "constant", "closed"])))
+            if full and rng.random() < 0.6 or rng.random() < 0.15:
+                L.append(" -lengths %g" % rng.choice([0.1, 1, 2.5]))
+            if full and rng.random() < 0.6 or rng.random() < 0.15:
+                L.append(" -dispersivities %g" % rng.choice([0, 0.01, 0.5]))
+            if full and rng.random() < 0.5 or rng.random() < 0.15:
+                L.append(" -diffusion_coefficient %g" % rng.choice([0, 3e-10, 1e-9]))
+            if rng.random() < 0.15:
+                L.append(" -correct_disp %s" % rng.choice(["true", "false"]))
+        else:
+            if full or rng.random() < 0.2:
+                L.append(" -time_step %d" % rng.choice([100, 3600]))
+        if (full and rng.random() < 0.7) or rng.random() < 0.15:
+            a = rng.randint(1, n)
+            L.append(" -punch_cells %d-%d" % (a, rng.randint(a, n)) if rng.random() < 0.7 else " -punch_cells %d" % a)
+        if (full and rng.random() < 0.5) or rng.random() < 0.15:
+            L.append(" -punch_frequency %d" % rng.randint(1, 3))
+        if rng.random() < 0.3:
+            L.append(" -print_cells %d" % rng.randint(1, n))
+        if rng.random() < 0.2:
+            L.append(" -print_frequency %d" % rng.randint(1, 3))
+        first[kind] = False
+        pre = ""
+        if rng.random() < 0.4:
+            pre = "SOLUTION 0\n pH %.1f\n Na %g\n Cl %g\n" % (rng.uniform(5, 9), rng.uniform(1, 30), rng.uniform(1, 30))
+        t += pre + "\n".join(L) + "\nEND\n"
+    return t
+
+
 def script(db, pieces, cwd):
     """pieces: list of (entry, text)"""
     ops = [["spy"], ["c", "LoadDatabase", 0, os.path.join(vlib.DB, db)], ["c", "SetDumpStringOn", 0, 1]]
@@ -155,8 +212,13 @@ def cuts_for(ctx, n, exhaustive_upto):
     return sorted(set(pats))
 
 
+def gen():
+    from translator import c04_percall
+    vlib.write_if_changed(os.path.join(vlib.COQ, "Gen", "Gen_C04.v"), c04_percall.generate(vlib.REPO))
+
+
 def run(ctx):
-    vlib.coq_stage(ctx, "Props/Properties_C04.vo")
+    vlib.coq_stage(ctx, "Props/Properties_C04.vo", gen=gen)
     wexe = wrap.build_wdrive()
     ctx.rule = ("error-free multi-simulation inputs (shipped examples that run within seconds + generated inputs with SELECTED_OUTPUT/USER_PUNCH, reactions, SAVE/USE) run in one RunString call and under "
                 "cuts at END boundaries (all 2^(n-1) cuts for small n in thorough, random otherwise), each piece delivered by RunString / RunFile / AccumulateLine+RunAccumulated; compared: data rows of all "
@@ -172,7 +234,7 @@ def run(ctx):
             ctx.rng.shuffle(inputs)
             inputs = inputs[:14]
         for k in range(ctx.n(80, 600)):
-            t, info = gen_inputs.multi_sim_input(ctx.rng, nsims=ctx.rng.randint(2, 5), allow_redefine=True, no_simno=True, rich=(k % 2 == 0))
+            t, info = gen_inputs.multi_sim_input(ctx.rng, nsims=ctx.rng.randint(2, 5), allow_redefine=True, no_simno=True, rich=(k % 2 == 0), print_toggle=True)
             if ctx.rng.random() < 0.6:
                 # a first simulation that defines persistent options/definitions (KNOBS, PRINT, INCREMENTAL_REACTIONS, RATES, CALCULATE_VALUES, database additions ...)
                 import props.c07 as c07
@@ -182,6 +244,8 @@ def run(ctx):
     if not ctx.replay:
         for k in range(ctx.n(8, 60)):
             inputs.append(("late%d" % k, "phreeqc.dat", defined_later_input(ctx.rng)))
+        for k in range(ctx.n(16, 120)):
+            inputs.append(("column%d" % k, "phreeqc.dat", transport_input(ctx.rng)))
     jobs = []
     for name, db, text in inputs:
         sims = split_sims(text)
